@@ -798,6 +798,41 @@ mut("c15-rangepre-search-empty-query-guard-dropped", "C15", "sequence.go", "func
 mut("c09-invert-circular-empty-reverted", "C09", "region.go", "\tif len(ss) == 0 || ss[0][0] == 0 || ss[len(ss)-1][1] == n {", "\tif ss[0][0] == 0 || ss[len(ss)-1][1] == n {", ["INVERT|gts.InvertCircular"], note="the repaired defect, reintroduced")
 mut("c09-invert-circular-silent-empty-early-return", "C09", "region.go", "\tif len(ss) == 0 || ss[0][0] == 0 || ss[len(ss)-1][1] == n {", "\tif len(ss) < 1 {\n\t\treturn rr\n\t}\n\tif ss[0][0] == 0 || ss[len(ss)-1][1] == n {", silent=True)
 
+# ---------------------------------------------------------------- seed round 8
+mut("c03-flag-read-before-parse", "C03", "cmd/gts/delete.go",
+    "\terase := opt.Switch('e', \"erase\", \"remove features contained in the deleted regions\")\n\n\tif err := ctx.Parse(pos, opt); err != nil {\n\t\treturn err\n\t}\n",
+    "\terase := opt.Switch('e', \"erase\", \"remove features contained in the deleted regions\")\n\teraseWanted := *erase\n\n\tif err := ctx.Parse(pos, opt); err != nil {\n\t\treturn err\n\t}\n\t_ = eraseWanted\n",
+    ["FLAG-AFTER-PARSE|main.deleteFunc|erase"], note="an option value copied before the command line is parsed")
+mut("c14-flag-silent-closure-before-parse", "C14", "cmd/gts/delete.go",
+    "\terase := opt.Switch('e', \"erase\", \"remove features contained in the deleted regions\")\n\n\tif err := ctx.Parse(pos, opt); err != nil {\n\t\treturn err\n\t}\n",
+    "\terase := opt.Switch('e', \"erase\", \"remove features contained in the deleted regions\")\n\twantErase := func() bool { return *erase }\n\n\tif err := ctx.Parse(pos, opt); err != nil {\n\t\treturn err\n\t}\n\t_ = wantErase\n",
+    silent=True, note="a closure defined before Parse reads the option when it is called")
+mut("c14-replay-reported-as-miss", "C14", "cmd/gts/io.go", "\tif d.outfile != os.Stdout {\n\t\tos.Remove(f.Name())\n\t}\n\n\treturn true, nil\n", "\tif d.outfile != os.Stdout {\n\t\tos.Remove(f.Name())\n\t\treturn false, nil\n\t}\n\n\treturn true, nil\n", ["REPLAY-HIT|main.ioDelegate.TryCache|replay"])
+mut("c14-digest-before-read", "C14", "cmd/gts/infix.go", "\th.Reset()\n\tr := attach(h, f)\n\tscanner := seqio.NewAutoScanner(r)\n", "\th.Reset()\n\tr := attach(h, f)\n\thostSum := h.Sum(nil)\n\tscanner := seqio.NewAutoScanner(r)\n", ["DIGEST-AFTER-READ|main.infixFunc|attach#1"],
+    old2="\t\tctx.Raise(fmt.Errorf(\"host sequence file %q does not contain a sequence\", *hostPath))\n\t}\n\thostSum := h.Sum(nil)\n", new2="\t\tctx.Raise(fmt.Errorf(\"host sequence file %q does not contain a sequence\", *hostPath))\n\t}\n")
+mut("c01-locus-length-contig-first", "C01", "seqio/genbank.go", "\tlength := gb.Origin.Len()\n\tif length == 0 {\n\t\tlength = gb.Fields.Contig.Region.Len()\n\t}\n", "\tlength := gb.Fields.Contig.Region.Len()\n\tif length == 0 {\n\t\tlength = gb.Origin.Len()\n\t}\n", ["LOCUS-LENGTH|seqio.GenBank.String|LOCUS-length"])
+mut("c01-locus-length-silent-leq", "C01", "seqio/genbank.go", "\tlength := gb.Origin.Len()\n\tif length == 0 {\n", "\tlength := gb.Origin.Len()\n\tif length <= 0 {\n", silent=True)
+mut("c05-reverse-fill-skips-middle", "C05", "sequence.go", "\tp := make([]byte, Len(seq))\n\tcopy(p, seq.Bytes())\n\tflip.Bytes(p)\n", "\tq := seq.Bytes()\n\tp := make([]byte, len(q))\n\tfor i, j := 0, len(q)-1; i < j; i, j = i+1, j-1 {\n\t\tp[i], p[j] = q[j], q[i]\n\t}\n\t_ = flip.Bytes\n", ["REVERSE-BYTES|gts.Reverse|bytes"])
+mut("c05-reverse-silent-fill-leq", "C05", "sequence.go", "\tp := make([]byte, Len(seq))\n\tcopy(p, seq.Bytes())\n\tflip.Bytes(p)\n", "\tq := seq.Bytes()\n\tp := make([]byte, len(q))\n\tfor i, j := 0, len(q)-1; i <= j; i, j = i+1, j-1 {\n\t\tp[i], p[j] = q[j], q[i]\n\t}\n\t_ = flip.Bytes\n", silent=True)
+mut("c05-reverse-silent-swap-on-copy", "C05", "sequence.go", "\tflip.Bytes(p)\n\tseq = WithBytes(seq, p)\n", "\tfor i, j := 0, len(p)-1; i < j; i, j = i+1, j-1 {\n\t\tp[i], p[j] = p[j], p[i]\n\t}\n\t_ = flip.Bytes\n\tseq = WithBytes(seq, p)\n", silent=True)
+mut("c05-reverse-silent-range-mirror", "C05", "sequence.go", "\tp := make([]byte, Len(seq))\n\tcopy(p, seq.Bytes())\n\tflip.Bytes(p)\n", "\tq := seq.Bytes()\n\tp := make([]byte, len(q))\n\tfor i := range p {\n\t\tp[i] = q[len(q)-1-i]\n\t}\n\t_ = flip.Bytes\n", silent=True)
+mut("c05-reverse-range-mirror-off-by-one", "C05", "sequence.go", "\tp := make([]byte, Len(seq))\n\tcopy(p, seq.Bytes())\n\tflip.Bytes(p)\n", "\tq := seq.Bytes()\n\tp := make([]byte, len(q))\n\tfor i := range p {\n\t\tp[i] = q[(len(q)-i)%len(q)]\n\t}\n\t_ = flip.Bytes\n", ["REVERSE-BYTES|gts.Reverse|bytes"])
+mut("c06-order-hoists-complement", "C06", "location.go", "\tdefault:\n\t\treturn Ordered(list)\n\t}\n}\n", "\tdefault:\n\t\tinner := make([]Location, 0, len(list))\n\t\tfor _, loc := range list {\n\t\t\tif c, ok := loc.(Complemented); ok {\n\t\t\t\tinner = append(inner, c.Location)\n\t\t\t}\n\t\t}\n\t\tif len(inner) == len(list) {\n\t\t\treturn Complemented{Ordered(inner)}\n\t\t}\n\t\treturn Ordered(list)\n\t}\n}\n", ["ORDER-VERBATIM|gts.Order|return#2"])
+mut("c06-order-drops-last-part", "C06", "location.go", "\tdefault:\n\t\treturn Ordered(list)\n\t}\n}\n", "\tdefault:\n\t\treturn Ordered(list[:len(list)-1])\n\t}\n}\n", ["ORDER-VERBATIM|gts.Order|return#2"])
+mut("c06-push-store-into-other-node", "C06", "location.go", "\t\tcase Ranged:\n\t\t\tif int(v) == u.Start {\n\t\t\t\tll.Data = u\n\t\t\t\treturn\n\t\t\t}\n\t\t}\n\n\tcase Ranged:\n", "\t\tcase Ranged:\n\t\t\tif int(v) == u.Start {\n\t\t\t\thead := ll\n\t\t\t\tif head.Next != nil {\n\t\t\t\t\thead = head.Next\n\t\t\t\t}\n\t\t\t\thead.Data = u\n\t\t\t\treturn\n\t\t\t}\n\t\t}\n\n\tcase Ranged:\n", ["PUSH-TARGET|gts.(*LocationList).Push|stores#4"])
+mut("c12-push-unconditional-return", "C12", "location.go", "\t\tcase Ranged:\n\t\t\tif int(v) == u.Start {\n\t\t\t\tll.Data = u\n\t\t\t\treturn\n\t\t\t}\n\t\t}\n\n\tcase Ranged:\n", "\t\tcase Ranged:\n\t\t\tif int(v) == u.Start {\n\t\t\t\tll.Data = u\n\t\t\t}\n\t\t\treturn\n\t\t}\n\n\tcase Ranged:\n", ["PUSH-ABSORB|gts.(*LocationList).Push|Point+Ranged"])
+mut("c11-neworigin-folds-case", "C11", "seqio/origin.go", "\t\t\toffset += copy(q[offset:], p[start:end])\n\t\t}\n\t\tq[offset] = '\\n'\n", "\t\t\tfor _, c := range p[start:end] {\n\t\t\t\tif 'A' <= c && c <= 'Z' {\n\t\t\t\t\tc += 'a' - 'A'\n\t\t\t\t}\n\t\t\t\tq[offset] = c\n\t\t\t\toffset++\n\t\t\t}\n\t\t}\n\t\tq[offset] = '\\n'\n", ["RESIDUE-VERBATIM|seqio.NewOrigin|store#3"])
+mut("c16-neworigin-silent-bytewise-copy", "C16", "seqio/origin.go", "\t\t\toffset += copy(q[offset:], p[start:end])\n\t\t}\n\t\tq[offset] = '\\n'\n", "\t\t\tfor _, c := range p[start:end] {\n\t\t\t\tq[offset] = c\n\t\t\t\toffset++\n\t\t\t}\n\t\t}\n\t\tq[offset] = '\\n'\n", silent=True)
+mut("c16-fast-path-error-is-final", "C16", "seqio/genbank_subparsers.go", "\t\t\tif validateOrigin(p, length, state.Position()) == nil {\n\t\t\t\tstate.Advance()\n", "\t\t\tif n := len(p); n == 0 || p[n-1] == '\\n' {\n\t\t\t\tif err := validateOrigin(p, length, state.Position()); err != nil {\n\t\t\t\t\treturn err\n\t\t\t\t}\n\t\t\t\tstate.Advance()\n", ["FAST-FALLBACK|seqio.makeGenbankOriginParser|fallback"])
+mut("c16-fast-path-silent-err-variable", "C16", "seqio/genbank_subparsers.go", "\t\t\tif validateOrigin(p, length, state.Position()) == nil {\n", "\t\t\tif err := validateOrigin(p, length, state.Position()); err == nil {\n", silent=True)
+mut("c18-search-content-prefilter", "C18", "sequence.go", "func bytesIndexAll(s, sep []byte) []int {\n", "func bytesIndexAll(s, sep []byte) []int {\n\tlast := len(s) - len(sep)\n\tif last < 0 || bytes.IndexByte(s[:last], sep[0]) < 0 {\n\t\treturn nil\n\t}\n", ["SEARCH-SHORTCUT|gts.bytesIndexAll|empty-return#1"])
+mut("c18-search-silent-length-prefilter", "C18", "sequence.go", "func bytesIndexAll(s, sep []byte) []int {\n", "func bytesIndexAll(s, sep []byte) []int {\n\tlast := len(s) - len(sep)\n\tif last < 0 {\n\t\treturn nil\n\t}\n", silent=True)
+mut("c19-overlap-empty-window-shortcut", "C19", "feature.go", "func Overlap(lower, upper int) Filter {\n", "func Overlap(lower, upper int) Filter {\n\tif upper <= lower {\n\t\treturn FalseFilter\n\t}\n", ["FILTER-DELEGATE|gts.Overlap"])
+mut("c19-within-bounds-swapped", "C19", "feature.go", "\t\treturn LocationWithin(f.Loc, lower, upper)\n", "\t\treturn LocationWithin(f.Loc, upper, lower)\n", ["FILTER-DELEGATE|gts.Within"])
+mut("c19-strand-both-uncounted", "C19", "location.go", "\t\tcase StrandReverse:\n\t\t\tr++\n\t\tdefault:\n\t\t\tf++\n\t\t\tr++\n\t\t}\n\t}\n\tswitch {\n\tcase r == 0:\n\t\treturn StrandForward\n\tcase f == 0:\n\t\treturn StrandReverse\n", "\t\tcase StrandReverse:\n\t\t\tr++\n\t\t}\n\t}\n\tswitch {\n\tcase f > 0 && r == 0:\n\t\treturn StrandForward\n\tcase r > 0 && f == 0:\n\t\treturn StrandReverse\n", ["STRAND-TALLY|gts.checkStrand"])
+mut("c19-strand-silent-explicit-both-case", "C19", "location.go", "\t\tcase StrandReverse:\n\t\t\tr++\n\t\tdefault:\n\t\t\tf++\n\t\t\tr++\n\t\t}\n", "\t\tcase StrandReverse:\n\t\t\tr++\n\t\tcase StrandBoth:\n\t\t\tf += 1\n\t\t\tr += 1\n\t\t}\n", silent=True)
+mut("c19-strand-silent-if-chain", "C19", "location.go", "\tswitch {\n\tcase r == 0:\n\t\treturn StrandForward\n\tcase f == 0:\n\t\treturn StrandReverse\n\tdefault:\n\t\treturn StrandBoth\n\t}\n}\n\nfunc CheckStrand", "\tif r == 0 {\n\t\treturn StrandForward\n\t}\n\tif f == 0 {\n\t\treturn StrandReverse\n\t}\n\treturn StrandBoth\n}\n\nfunc CheckStrand", silent=True)
+
 # ---------------------------------------------------------------- refactoring round 3
 mut("c02-normalise-silent-tagless-switch", "C02", "location.go",
     "func (ranged Ranged) Shift(i, n int) Location {\n\tif n == 0 {\n\t\treturn ranged\n\t}\n\tif n < 0 {\n\t\treturn ranged.Expand(i, n)\n\t}\n",
